@@ -336,6 +336,17 @@ func runC15(r *Run) {
 			{[]**time.Time{}, []**time.Time{}}, {struct{ X []*time.Time }{[]*time.Time{}}, struct{ X []*time.Time }{[]*time.Time{&tm}}}, {[]opt{}, []opt{{T: &tm, L: []time.Time{}}}}, {[]opt{{L: []time.Time{}}}, []opt{{T: &tm, L: []time.Time{tm}}}},
 			{map[string][]*inner{}, map[string][]*inner{"a": {{1}}}}, {[0]*time.Time{}, [0]*time.Time{}},
 		}
+		// conversion history must not matter: a value with an absent untagged part is converted FIRST, then the type-only
+		// path (empty containers) of the same Go type is compared with the value path of a complete value
+		type un struct {
+			P *int
+			L []int
+			I interface{}
+		}
+		one := 1
+		protect(func() { conv.ValOf(un{}); conv.ValOf(struct{ U un }{}); conv.TypeOf(un{I: "s"}) })
+		pairs = append(pairs, [2]interface{}{[]un{}, []un{{P: &one, L: []int{1}, I: 1}}}, [2]interface{}{map[string]un{}, map[string]un{"a": {P: &one, L: []int{}, I: 2}}},
+			[2]interface{}{struct{ Xs []un }{[]un{}}, struct{ Xs []un }{[]un{{P: &one, L: []int{2}, I: 3}}}})
 		for _, p := range pairs {
 			var t1, t2 *types.Type
 			var e1, e2 error
